@@ -4,7 +4,8 @@ Model: spec/ir/Ops.tla gives the denotation of a nested operator term as MATRIX 
 right-hand side of the property) - a post-order stack machine over exact matrices in Z[zeta_16][1/2] whose leaves come from the
 reference table Gates.tla.  spec/trace/TermEval.tla runs it one instruction per TLC step.
 
-Binding, per generated term t (systematic depth 1-2 + seeded random nesting to depth 3/4, scalars {+-1, +-1/2, +-i, 2},
+Binding, per generated term t (systematic depth 1-2 + systematic ctrl-of-ctrl over arithmetic operands with every inner x outer
+control-value combination (OpsSelf law ctrlnest fixes which value belongs to which wire) + seeded random nesting to depth 3/4, scalars {+-1, +-1/2, +-i, 2},
 exponents {-2..3} and 1/2 under the eigenphase guard, control values, work wires, mixed int/str labels, shuffled wire_order):
   REPLAY  qp.matrix(build(t), wire_order) is compared (1e-8) with the exact Sem(t) TLC emits;
   TRACE   the expression PennyLane actually built (eager dispatch to specialised classes), qp.simplify(expr) and
@@ -123,6 +124,69 @@ def gen_terms(tier, rng):
             rest = [l for l in L4 if l not in ws]
             out.append((unary(k2, {"t": "exp", "a": G(rng.choice(["PauliX", "PauliY", "PauliZ", "Hadamard"]), ws), "e": rng.choice(range(1, 16))}, rest), "d2"))
             out.append((unary(k2, {"t": "root", "a": ot.root_leaf(rng, ws, M)}, rest), "d2"))
+    # (2b) controlled versions OF controlled operators: every inner x outer control-value combination (values that differ between
+    # the levels included), over arithmetic operands (Prod / Sum / SProd / Exp / Adjoint / Pow / root / ChangeOpBasis, i.e. the
+    # old-style wrapper that flattens nested controls) and plain gates, with work wires, three levels, and a wrapper in between
+    def arith_bases(ws):
+        w = ws[0]
+        a1, a2 = rng.choice(angs), rng.choice(angs)
+        bs = [G("RY", [w], [a1]),
+              {"t": "prod", "as": [G("S", [w]), G("RX", [w], [a1])]},
+              {"t": "sum", "as": [G("PauliX", [w]), G("Hadamard", [w])]},
+              {"t": "sprod", "c": rng.choice(["i", "-1", "1/2", "-i"]), "a": G(rng.choice(["PauliX", "RY", "T"]), [w], [])},
+              {"t": "exp", "a": G(rng.choice(["PauliX", "PauliY", "Hadamard"]), [w]), "e": rng.choice(range(1, 16))},
+              {"t": "adj", "a": {"t": "prod", "as": [G("T", [w]), G("RY", [w], [a2])]}},
+              {"t": "pow", "a": {"t": "prod", "as": [G("SX", [w]), G("PhaseShift", [w], [a2])]}, "z": rng.choice([-1, 2, 3])},
+              {"t": "root", "a": ot.root_leaf(rng, [w], M)},
+              {"t": "cob", "as": [G("Hadamard", [w]), G("RZ", [w], [a1]), None]}]
+        for b in bs:
+            if b["t"] == "sprod" and b["a"]["g"] == "RY":
+                b["a"]["p"] = [a2]
+        if len(ws) > 1:
+            v = ws[1]
+            bs = [{"t": "prod", "as": [G("CNOT", [w, v]), G("RX", [v], [a1])]},
+                  {"t": "sum", "as": [G("PauliZ", [w]), G("IsingXX", [v, w], [a2])]},
+                  {"t": "sprod", "c": rng.choice(["i", "-1"]), "a": G("SWAP", [v, w])},
+                  {"t": "exp", "a": {"t": "prod", "as": [G("PauliX", [w]), G("PauliY", [v])]}, "e": rng.choice(range(1, 16))},
+                  {"t": "prod", "as": [G("T", [v]), G("PauliY", [w])]}]
+        return bs
+
+    def cvs(n):
+        return [[(i >> j) & 1 for j in range(n)] for i in range(1 << n)]
+
+    def nest(base, cw1, cv1, cw2, cv2, ww1=(), ww2=(), mid=None):
+        inner = {"t": "ctrl", "a": base, "cw": list(cw1), "cv": list(cv1), "ww": list(ww1)}
+        if mid == "adj":
+            inner = {"t": "adj", "a": inner}
+        elif mid == "pow":
+            inner = {"t": "pow", "a": inner, "z": rng.choice([-1, 2, 3]) if ot.is_unitary(base) else rng.choice([2, 3])}
+        elif mid == "sprod":
+            inner = {"t": "sprod", "c": rng.choice(["i", "-1", "-i"]), "a": inner}
+        return {"t": "ctrl", "a": inner, "cw": list(cw2), "cv": list(cv2), "ww": list(ww2)}
+
+    for (nb, n1, n2) in ((1, 1, 1), (1, 1, 2), (1, 2, 1), (2, 1, 1)) + (() if quick else ((1, 2, 2), (2, 1, 2), (2, 2, 1))):
+        for rep in range(1 if quick else 3):
+            ls = rng.sample(LABELS, min(len(LABELS), nb + n1 + n2 + 1))
+            ws, cw1, cw2, spare = ls[:nb], ls[nb:nb + n1], ls[nb + n1:nb + n1 + n2], ls[nb + n1 + n2:]
+            for b in arith_bases(ws):
+                combos = [(c1, c2) for c1 in cvs(n1) for c2 in cvs(n2)]
+                if quick and len(combos) > 4:       # keep the level-distinguishing combinations, sample the rest
+                    mixed = [c for c in combos if set(c[0]) != set(c[1]) or len(set(c[0] + c[1])) > 1]
+                    combos = rng.sample(mixed, 4)
+                for (c1, c2) in combos:
+                    out.append((nest(b, cw1, c1, cw2, c2), "nest"))
+                if nb + n1 + n2 == 2 + nb and spare:
+                    for (c1, c2) in ([0], [1]), ([1], [0]):
+                        side = rng.random() < 0.5
+                        out.append((nest(b, cw1, c1, cw2, c2, ww1=spare[:1] if side else (), ww2=() if side else spare[:1]), "nest"))
+                if n1 == 1 and n2 == 1:
+                    for mid in ("adj", "pow") + (() if "cob" in ot.kinds(b) else ("sprod",)):
+                        c1 = [rng.choice([0, 1])]
+                        out.append((nest(b, cw1, c1, cw2, [1 - c1[0]], mid=mid), "nest"))
+                    if nb == 1 and spare:           # three levels
+                        for c3 in ([0], [1]):
+                            c1 = [rng.choice([0, 1])]
+                            out.append(({"t": "ctrl", "a": nest(b, cw1, c1, cw2, [1 - c1[0]]), "cw": spare[:1], "cv": c3, "ww": []}, "nest"))
     # (3) seeded random nesting
     nrand = 420 if quick else 9000
     for i in range(nrand):
@@ -182,7 +246,8 @@ def _run(terms, tier, rng, full):
     stats = {"terms": 0, "construct_raised": {}, "matrix_undefined": 0, "simplify_raised": {}, "map_wires_raised": {},
              "built": {"exact": 0, "bridged": 0, "unencodable": 0}, "simplify": {"exact": 0, "bridged": 0, "unencodable": 0},
              "map_wires": {"exact": 0, "bridged": 0, "unencodable": 0}, "simplify_changed": 0, "built_classes": {},
-             "kinds": {}, "depths": {}, "dunder_style": 0}
+             "kinds": {}, "depths": {}, "dunder_style": 0, "nested_ctrl": 0, "nested_ctrl_values_differ": 0,
+             "nested_ctrl_flattened_by_impl": 0}
     seen = set()
     for (t, origin) in terms:
         W = ot.wires_of(t)
@@ -210,6 +275,12 @@ def _run(terms, tier, rng, full):
             stats["kinds"][k] = stats["kinds"].get(k, 0) + 1
         stats["depths"][ot.depth(t)] = stats["depths"].get(ot.depth(t), 0) + 1
         cn = type(expr).__name__
+        if t["t"] == "ctrl" and t["a"]["t"] == "ctrl":
+            stats["nested_ctrl"] += 1
+            if set(t["cv"]) != set(t["a"]["cv"]) or len(set(t["cv"])) > 1:
+                stats["nested_ctrl_values_differ"] += 1
+                if ot.is_ctrl(expr) and not ot.is_ctrl(getattr(expr, "base", None)) and len(getattr(expr, "control_wires", [])) == len(t["cw"]) + len(t["a"]["cw"]):
+                    stats["nested_ctrl_flattened_by_impl"] += 1
         stats["built_classes"][cn] = stats["built_classes"].get(cn, 0) + 1
         case = {"n": len(W), "emit": 1, "a": ot.prog(t, wpos, M), "bs": []}
         m = {"term": t, "origin": origin, "W": W, "outs": [], "float": [], "matrix": None, "expr": repr(expr)[:300]}
@@ -345,6 +416,8 @@ def _run(terms, tier, rng, full):
         raise lib.MachineryError("comparator negative control accepted")
     if full and not all(stats["kinds"].get(x, 0) > 0 for x in ("adj", "pow", "root", "ctrl", "prod", "sum", "sprod", "exp", "cob")):
         raise lib.MachineryError(f"vacuity: some term kind never generated: {stats['kinds']}")
+    if full and (stats["nested_ctrl_values_differ"] < 40 or stats["nested_ctrl_flattened_by_impl"] < 20):
+        raise lib.MachineryError(f"vacuity: too few nested controlled operators with level-distinguishing control values: {stats}")
     if full and (stats["simplify"]["exact"] < 50 or stats["map_wires"]["exact"] < 50 or n_matrix < 100):
         raise lib.MachineryError(f"vacuity: too few validated outputs {stats}")
     cov = {"states": tstats["distinct"] + rs.distinct, "transitions": tstats["generated"] + rs.generated,
